@@ -3,22 +3,24 @@ import vlib
 class P(vlib.Prop):
     id = "C05"
     watch = ("pkg/apk/apk/implementation.go", "pkg/apk/expandapk/*.go", "pkg/apk/apk/install.go", "pkg/tarfs/fs.go", "pkg/build/installable_from_lock.go")
-    rule = ("install stage: 78 package variants in 9 families — every substitution of the statement (control of another build, data of another package, a modified body, "
+    rule = ("install stage: 117 package variants in 12 families — every substitution of the statement (control of another build, data of another package, a modified body, "
             "a modified / missing / undecodable / borrowed per-file checksum, a different internally consistent package under the URL, wrong / absent / empty / duplicated / upper-case datahash, "
-            "checksum strings without Q1 / not base64 / empty / of another build, nothing under the URL), symlinks, hard links (to a file, to a link, retargeted, dangling, before their target), a device entry, "
-            "top-level dot files, and every shape of the served byte stream (unsigned, bytes after the last member, truncated after the signature or control member, one member, no member, empty file, "
-            "doubled signature / control / data members, a foreign or empty member appended, a data section split over two members, a member after the end-of-archive marker, a control section "
-            "starting with a script / without .PKGINFO / that is an empty archive, a data section that is no tar, the fixed C05-F3 shape: two members the first of which starts with a .SIGN.* entry) "
-            "— each x {tarfs lazy install, memfs streaming install} x {cache disabled; cold then again in a new process; warm from an earlier process; warm without the uncompressed .dat.tar; "
-            "variant first then origin repaired; same request twice in one process} = 936 cells, every cell in the quick tier; plus republished-URL / memo-key sequences, the well-formed variants "
-            "behind a real signed index (FixateWorld), and generated sequences of 2-4 installs with random cache directories, process boundaries, origins and dropped tars. Every install goes "
-            "through the real apk.New/InitDB/InstallPackages. Observed: success/failure, recorded pkgdesc, contents of every file readable afterwards under a shipped regular-file or hard-link name. "
-            "A case is a sequence; distinct = label + outcome pattern; distribution bucket = family/history/install path:outcomes.")
+            "checksum strings without Q1 / not base64 / empty / of another build, nothing under the URL), symlinks, hard links (to a file, to a link, retargeted, dangling, before their target, between files), "
+            "top-level dot files, every shape of the served byte stream (unsigned, bytes after the last member, truncated, one member, no member, empty, doubled or foreign members, a data section split over two "
+            "members, a member after the end-of-archive marker, odd control sections, the fixed C05-F3 shape), .PKGINFO TEXTS (lines of 65535 / 65536 / 70000 bytes and 1 MiB before or after the datahash line, "
+            "CR LF, tabs and no-break spaces, no final newline, several datahash lines, a datahash line with two '='), data-section entries of every tar type flag (NUL, '7', unknown, char, block, fifo, symlink, "
+            "hard link) with a body and a checksum record, genuine and altered, and the fixed C05-F4 shape (a sparse entry) — each x {tarfs lazy install, memfs streaming install} x the cache MODES "
+            "{disabled; cold then again in a new process; warm from an earlier process; OFFLINE with a whole .apk pre-populated under the URL-derived name, over http} plus ONE of five further histories "
+            "(warm without the uncompressed .dat.tar; variant first then origin repaired; same request twice in one process; online over http with a pre-populated file, then offline; online over http no cache / "
+            "cold / offline) rotating with the seed in the quick tier, all five in the thorough tier: 1170 cells quick, 2106 thorough; plus republished-URL / memo-key sequences, the well-formed variants behind "
+            "a real signed index (FixateWorld), and generated sequences of 2-4 installs with random cache directories, process boundaries, origins, transports, offline flags, pre-populated files and dropped tars. "
+            "Every install goes through the real apk.New/InitDB/InstallPackages. Observed: success/failure, recorded pkgdesc, contents of every file readable afterwards under the name of any shipped entry that "
+            "is not a directory or symlink. A case is a sequence; distinct = label + outcome pattern; distribution bucket = family/history/install path:outcomes.")
     stages = (
         dict(name="install", cmd="c05", args=lambda t, s: []),
     )
     assumptions = (
-        "SHA-1 / SHA-256 / base64 and the decoders (first tar header of a gzip member, .PKGINFO of a control member, multi-member gunzip, untar) are Section variables; "
+        "SHA-1 / SHA-256 / base64 and the decoders (first tar header of a gzip member, pkgdesc and TEXT of the first .PKGINFO entry of a control member, multi-member gunzip, untar) are Section variables; the datahash values are computed from the text in Coq (control_values = controlValue); "
         "c05_chain speaks about equality of digests; c05_end_to_end, c05_data_authenticated and c05_content_addressing state collision resistance (sha1 injective, hex of sha256 injective) as explicit hypotheses on the oracles",
         "a served file is a list of complete gzip members followed by bytes that are not one; the one-byte-at-a-time reader of ExpandApk is modelled as cutting the first member(s) exactly at their last byte "
         "(justified in Model/PkgAuth.v at [cut_with]; exercised by the stream-shape variants), gzip/tar decoding itself is an oracle filled by the harness with the standard library's result",
@@ -28,7 +30,7 @@ class P(vlib.Prop):
         "hard links: the target is looked up among the names this package wrote so far (exact text); links to symlinks / directories and duplicate names are C06/C07/C17 territory and are not generated",
     )
     level_text = ("Theorems about an executable model of ExpandApk's cut of the served stream (which member is hashed as control section, that ALL remaining members are the data section, that nothing may follow), "
-                  "its per-file check, verifyExpanded, cachePackage / cachedPackage over the three cache files, the process-wide memo, and the lazy and streaming installs (regular files, symlinks, hard links, other types), "
+                  "its per-file check, controlValue's reading of the .PKGINFO text, the tar index's refusal of sparse entries, verifyExpanded, the sources of a fetch (origin, pre-populated cache file, offline), cachePackage / cachedPackage over the three cache files, the process-wide memo, and the lazy and streaming installs (regular files, symlinks, hard links, other types), "
                   "for all handles, served streams, cache contents satisfying the population invariant and memo states; c05_end_to_end: under collision resistance every installed file's bytes are the body of an entry of the "
                   "data bytes whose SHA-256 the control member records whose SHA-1 the handle records, for the cold, warm-cache and memo paths and both install paths; tied to the code by differential comparison of "
                   "install sequences through the public API; the verified validator of the chain is run on what the real code installed.")
